@@ -143,6 +143,8 @@ def show(t):
         return "<lambda>"
     if k == "zero":
         return "0"
+    if k == "where":
+        return f"where(mask, {show(t[1])}, {show(t[2])})"
     if k == "join":
         return " | ".join(show(x) for x in t[1])
     if k == "tuple":
@@ -694,6 +696,11 @@ class TermEval(AbsInt):
             return ("argsort", args[0])
         if name in ("cholesky", "eigh", "eig", "svd", "lu", "qr"):
             return ("factor", name, args[0], id(node))
+        if name == "where" and len(args) == 3:
+            # element-wise selection between two values by a data-dependent mask: equal to a term only if both branches are
+            return args[1] if args[1] == args[2] else ("where", args[1], args[2])
+        if name in ("zeros", "zeros_like"):
+            return ("zero", )
         return ("opaque", f"xnp.{name}")
 
     def call_class(self, ci, node, args, kwargs, ctx):
